@@ -355,8 +355,15 @@ namespace sim
 				// we already read an address of length 4, assuming it was an IPv4
 				// address. Now, with a domain name, one of those bytes was the
 				// length-prefix, but we still read 3 bytes already.
-				// names shorter than 3 characters are already complete
-				const int additional_bytes = (std::max)(0, len - 3);
+				const int additional_bytes = len - 3;
+				if (additional_bytes <= 0)
+				{
+					// the whole request is in the buffer already. (A zero-size read
+					// would only complete once the client sends something more,
+					// which a conforming client never does before the reply.)
+					on_request_domain_name(error_code(), 0);
+					break;
+				}
 				asio::async_read(m_client_connection, asio::buffer(&m_out_buffer[10], additional_bytes)
 					, std::bind(&socks_connection::on_request_domain_name
 						, shared_from_this(), std::placeholders::_1, std::placeholders::_2));
